@@ -5,6 +5,19 @@ props={json.loads(l)['id']:json.loads(l) for l in open('/verif/properties.jsonl'
 # id -> (technique, level text, level note, design ref)
 CLAIMED={
 
+ 'C04':("exhaustive enumeration of malformed and well-formed ASTs (special forms x operand tuples, every bound symbol x argument tuples, one-level nestings) on the real EVAL under recover",
+        "11 special-form heads x every operand tuple of length <=3 (quick, 372 k) / <=4 (thorough, 11.9 M) over 32 operand shapes, every one of ~150 symbols bound in the fully loaded environment x every argument tuple of length <=3 over 18 values of every kind (840 k), and 186 k one-level nestings are evaluated under recover; a panic crossing EVAL is a violation keyed by panic site, and every returned error must be catchable by try/catch. Panics need one specific malformed shape each; exhaustive short tuples meet all of them (8 sites found and fixed).",
+        "Acyclic ASTs; recursion bounded by a poll-counting context; (panic nil) and run-fn-for excluded; worker stdin /dev/null.",
+        "DESIGN.md §4 C04"),
+ 'C08':("exhaustive enumeration of tail-position nestings x recursion spread, host stack depth probed at every iteration on the real EVAL",
+        "Every nesting of depth <=2 (quick, 219 shapes) / <=3 (thorough, 1755 shapes) of the 8 tail-position constructs around the recursive call, spread over 1-3 mutually recursive functions, runs with n = 3, 5, 50 while a Go builtin records runtime.Callers at every iteration: all depths from iteration 2 on must be equal; thorough also completes 20000 iterations under a 1 MiB stack limit (a fatal overflow is attributed to the shape by the supervisor). A negative control (call in non-tail position) must show growth.",
+        "Equal depth over 50 consecutive iterations is taken as re-entering the same frame for all n.",
+        "DESIGN.md §4 C08"),
+ 'C20':("exhaustive enumeration of signature shapes x declared bounds x entry points x argument lists against a contract computed from reflect.Type",
+        "216 generated signatures (context or not, 0-2 fixed parameters of 5 types, 3 variadic kinds, 4 result shapes) x declared bounds none/(m)/(m,M) x Call/CallOverrideFN = 2800 configurations, each called through EVAL with all 781 argument lists of length <=4 over {nil,int,string,list,vector} (2.2 M calls); the instrumented function records entry, arguments and context marker, compared with the contract computed from its reflect.Type alone; result/returned-error/panic(error)/panic(string) conventions with errors.Is and catchability; names and package paths with and without a dot.",
+        "Declared bounds count lisp arguments (per the comments at the call sites in lib/core); inconsistent declarations (bounds below the fixed parameter count) are not generated.",
+        "DESIGN.md §4 C20"),
+
  'C06':("exhaustive enumeration of bounded value and text spaces through the real printer and reader, compared by an independent structural equality",
         "Every string of <=3/<=4 characters over 19 escaping-relevant characters in 7 contexts (plus raw-form variants), every symbol/keyword spelling of <=3 identifier characters, every nested value up to the weight bound and every accepted float-free token text (838 k quick / 25 M thorough) is printed by the real printer and read back by the real reader and by read-string/pr-str; the result must equal the original under the model's own equality.",
         "Valid UTF-8 only; symbol spellings limited to the scanner's one-token identifier rule (transcribed); NUL is a recorded known finding (external scanner).",
